@@ -16,7 +16,7 @@ operations:
   rem C <rec>* H <rec>* U <rec>*    on_distributed_update            → `C[..] H[..] U[..] | T[..]` or `X`
   snap                              snapshot()                       → `C[..] H[..] U[..]`
 record  = id|phen|pat|idx|hist      hist = g=e.e;g=e    event = id:ts:kind:data     (`~` = empty group name)
-predicates: any | eq:k | ne:k | lt:k | gt:k | kind:<s|c|a> | sizelt:n | gtmax | grplt:<g>:<n> | raiseif:k:<pred>
+predicates: any | eq:k | ne:k | lt:k | gt:k | kind:<s|c|a> | sizelt:n | gtmax | grplt:<g>:<n> | raiseif:k:<pred> | simple:<pred>
 -/
 namespace Bobo.Drv.Decider
 open Bobo.Run Bobo.Decider
@@ -47,6 +47,10 @@ def parsePred : List String → Option (Pred Ev)
   | ["grplt", g, n] => n.toNat?.map (fun n => fun _ h =>
       let g' := if g == "~" then "" else g
       some (decide (((lookup g' h).getD []).length < n)))
+  | "simple" :: rest =>
+    match parsePred rest with
+    | some p => some (fun e h => if e.kind = .s then p e h else some false)
+    | none => none
   | "raiseif" :: k :: rest =>
     match k.toInt?, parsePred rest with
     | some k, some p => some (fun e h => if e.data = k then none else p e h)
